@@ -898,6 +898,175 @@ fn expiry(ctx: &mut Ctx) {
     }
 }
 
+/// THE PROPERTY'S OWN BOOK-KEEPING (written from the statement, not from the code): which sequences an assembler may
+/// hold and when it may return something. A sequence is an id, the fragment count once its header has been seen, the set
+/// of fragment ids that arrived, and the clock reading of its last fragment. "Holds no more than the data of sequences
+/// still incomplete and unexpired": after `cleanup_expired` at `t` exactly the sequences with `t - last <= timeout` are
+/// held; a sequence leaves when its last missing fragment arrives (that arrival returns the message) — and ONLY a
+/// sequence whose fragments all arrived while it was held can return anything.
+struct RefAsm {
+    timeout: u64,
+    held: BTreeMap<u64, (Option<u64>, BTreeSet<u64>, u64)>,
+}
+
+impl RefAsm {
+    fn new(timeout: u64) -> RefAsm {
+        RefAsm { timeout, held: BTreeMap::new() }
+    }
+    /// a fragment (`count` = `Some(id)` for a header); returns whether a message is returned
+    fn fragment(&mut self, now: u64, seq: u64, fid: u64, header: bool) -> bool {
+        let e = self.held.entry(seq).or_insert((None, BTreeSet::new(), now));
+        if header {
+            if e.0.is_some() && e.0 != Some(fid) {
+                return false; // conflicting header: ignored
+            }
+            e.0 = Some(fid);
+        }
+        if fid >= 1 {
+            e.1.insert(fid);
+        }
+        e.2 = now;
+        if let Some(n) = e.0 {
+            if (1..=n).all(|k| e.1.contains(&k)) {
+                self.held.remove(&seq);
+                return true;
+            }
+        }
+        false
+    }
+    fn cleanup(&mut self, now: u64) -> usize {
+        let before = self.held.len();
+        let t = self.timeout;
+        self.held.retain(|_, e| now - e.2 <= t);
+        before - self.held.len()
+    }
+}
+
+/// judge a run of the real assembler by `RefAsm`: every `pending_count()`, every `cleanup_expired()` return value and the
+/// returned / not returned pattern of every fragment. `clock[i]` is the logical time of op `i`.
+fn judge_by_ref(ctx: &mut Ctx, class: &str, what: &str, timeout: u64, ops: &[Op], clock: &[u64], outs: &[Out]) {
+    let mut r = RefAsm::new(timeout);
+    let mut k = 0usize; // index into outs (`Sleep` has no entry)
+    for (i, op) in ops.iter().enumerate() {
+        let now = clock[i];
+        let (want, got): (String, String) = match op {
+            Op::Sleep => continue,
+            Op::Start { seq, fid, .. } => (format!("returns={}", r.fragment(now, *seq, *fid, true)), format!("returns={}", matches!(outs[k], Out::Bytes(Some(_))))),
+            Op::Add { seq, fid, .. } => (format!("returns={}", r.fragment(now, *seq, *fid, false)), format!("returns={}", matches!(outs[k], Out::Bytes(Some(_))))),
+            Op::Cleanup => (format!("{:?}", Out::Removed(r.cleanup(now))), format!("{:?}", outs[k])),
+            Op::Count => (format!("{:?}", Out::Pending(r.held.len())), format!("{:?}", outs[k])),
+            Op::Clear => {
+                r.held.clear();
+                (String::new(), String::new())
+            }
+            Op::Frame(inner) => {
+                r.cleanup(now);
+                let w = match inner.as_deref() {
+                    Some(Op::Start { seq, fid, .. }) => r.fragment(now, *seq, *fid, true),
+                    Some(Op::Add { seq, fid, .. }) => r.fragment(now, *seq, *fid, false),
+                    _ => false,
+                };
+                (format!("returns={}", w), format!("returns={}", matches!(outs[k], Out::Bytes(Some(_)))))
+            }
+        };
+        if want != got {
+            let hist: Vec<String> = ops.iter().zip(clock).map(|(o, t)| format!("@{}:{:?}", t, o).replace(' ', "")).collect();
+            ctx.fail(class, &format!("{} (timeout {}): op {} {} but the property says {}; history {} outputs {}", what, timeout, i, got, want, hist.join(" "), outs.iter().map(outword).collect::<Vec<_>>().join(",")));
+            return;
+        }
+        k += 1;
+    }
+}
+
+/// the logical clock `exec` gives each op in the mode
+fn clock_of(mode: Mode, ops: &[Op]) -> Vec<u64> {
+    let mut logical = 0u64;
+    ops.iter()
+        .enumerate()
+        .map(|(i, op)| match mode {
+            Mode::Huge => i as u64,
+            Mode::Zero => i as u64 + 1,
+            Mode::Timed => {
+                let now = logical;
+                if matches!(op, Op::Sleep) {
+                    logical += TIMED_GAP_MS;
+                }
+                now
+            }
+        })
+        .collect()
+}
+
+/// SEVERAL SEQUENCES IN FLIGHT, THE OLDEST COMPLETES, A YOUNGER ONE THEN GOES SILENT. Whether a sequence expires must not
+/// depend on what happened to any other sequence: after the clean-up exactly the sequences heard of within the timeout are
+/// held, and the stragglers of an expired sequence never complete a message. Two and three sequences; clean-up called
+/// directly and once per frame (the connection's way); zero timeout (logical clock) and 20 ms / 60 ms real time.
+fn expiry_in_flight(ctx: &mut Ctx) {
+    for round in 0..ctx.n(120, 1200) {
+        let timed = round % 30 == 29;
+        let mode = if timed { Mode::Timed } else { Mode::Zero };
+        let frames = ctx.rng.chance(1, 2);
+        let base = ctx.rng.below(1000) * 10;
+        let nseq = ctx.rng.range(2, 3) as usize;
+        // sequence 0 is the oldest and completes; the others stay incomplete
+        let counts: Vec<u64> = (0..nseq).map(|_| ctx.rng.range(2, 4)).collect();
+        let wrap = |o: Op| if frames { Op::Frame(Some(Box::new(o))) } else { o };
+        let mut ops: Vec<Op> = vec![];
+        // the oldest starts while nothing is pending: by its header or by a continuation that overtook it
+        let a_ids: Vec<u64> = {
+            let mut v: Vec<u64> = (1..=counts[0]).collect();
+            ctx.rng.shuffle(&mut v);
+            v
+        };
+        let frag = |seq: u64, n: u64, fid: u64, b: u8| if fid == n { Op::Start { seq, fid, cache: None, data: vec![b] } } else { Op::Add { seq, fid, data: vec![b] } };
+        // in zero-timeout frame mode every frame sweeps what was touched before it, so the oldest can only complete when
+        // its fragments are not separated by frames: there the scenario uses direct calls for the oldest's fragments
+        let direct_a = mode == Mode::Zero;
+        let put_a = |o: Op| if direct_a { o } else { wrap(o) };
+        ops.push(put_a(frag(base, counts[0], a_ids[0], 1)));
+        // the younger ones start while the oldest is incomplete (all but their last fragment, some of it)
+        let mut missing: Vec<Vec<u64>> = vec![vec![]; nseq];
+        for q in 1..nseq {
+            let mut ids: Vec<u64> = (1..=counts[q]).collect();
+            ctx.rng.shuffle(&mut ids);
+            let keep = ctx.rng.range(1, counts[q] - 1) as usize;
+            for &fid in &ids[..keep] {
+                ops.push(if direct_a { frag(base + q as u64, counts[q], fid, 2) } else { wrap(frag(base + q as u64, counts[q], fid, 2)) });
+            }
+            missing[q] = ids[keep..].to_vec();
+        }
+        // the oldest completes
+        for &fid in &a_ids[1..] {
+            ops.push(put_a(frag(base, counts[0], fid, 3)));
+        }
+        ops.push(Op::Count);
+        // the younger ones go silent past the timeout; the clean-up runs
+        if timed {
+            ops.push(Op::Sleep);
+        }
+        // one of three may be heard of again in time (it must then survive)
+        let survivor = if nseq == 3 && timed && ctx.rng.chance(1, 2) && missing[2].len() >= 2 { Some(missing[2].remove(0)) } else { None };
+        if let Some(fid) = survivor {
+            ops.push(wrap(frag(base + 2, counts[2], fid, 4)));
+        }
+        ops.push(if frames { Op::Frame(None) } else { Op::Cleanup });
+        ops.push(Op::Count);
+        // the stragglers of the expired sequences arrive: none of them may complete a message
+        for q in 1..nseq {
+            for &fid in &missing[q] {
+                ops.push(wrap(frag(base + q as u64, counts[q], fid, 5)));
+            }
+        }
+        ops.push(Op::Count);
+        ctx.count(if timed { "expiry_in_flight_real_time" } else { "expiry_in_flight_zero_timeout" });
+        ctx.count(&format!("expiry_in_flight_{}_sequences", nseq));
+        let Some(outs) = tie(ctx, "gen", mode, &ops) else { continue };
+        let clock = clock_of(mode, &ops);
+        let timeout = if timed { TIMED_TIMEOUT_MS } else { 0 };
+        judge_by_ref(ctx, "c09-expiry-in-flight", "oldest sequence completes, a younger one goes silent", timeout, &ops, &clock, &outs);
+    }
+}
+
 /// `cleanup_expired` has to be called by whoever owns the assembler, or incomplete sequences are held for ever.
 /// Former witness of `kf-c09-cleanup-never-called` (repaired by f40d0e7): every non-test source file that constructs a
 /// `FragmentAssembler` must call `cleanup_expired()` on it. (Where exactly — once per received frame — is extracted by
@@ -1026,6 +1195,7 @@ pub fn run(ctx: &mut Ctx) {
     conflicting_header(ctx);
     expiry(ctx);
     frame_expiry(ctx);
+    expiry_in_flight(ctx);
     big_runs(ctx);
     cleanup_call_sites(ctx);
 }
